@@ -119,6 +119,8 @@ def regenerate():
     notes["stage1"] = translate_stage1.generate(REPO, os.path.join(COQ, "Gen", "SrcStage1.v"), os.path.join(HARNESS, "fallback"))
     import translate_linemap
     notes["linemap"] = translate_linemap.generate(REPO, os.path.join(COQ, "Gen", "SrcLineMap.v"), os.path.join(HARNESS, "fallback"))
+    import translate_iter
+    notes["iter"] = translate_iter.generate(REPO, os.path.join(COQ, "Gen", "SrcIter.v"), os.path.join(HARNESS, "fallback"))
     import translate_cli
     notes["cli"] = translate_cli.generate(REPO, os.path.join(COQ, "Gen", "SrcCli.v"), os.path.join(HARNESS, "fallback"))
     import translate_deps
